@@ -107,7 +107,10 @@ def _request_types_for(t, mode):
 
 @st.composite
 def op_strategy(draw, specs, mode):
-    """mode 'valid': in-bounds, same-type (C03).  mode 'edge': boundaries, out-of-bounds, cross-type, unknown (C05)."""
+    """mode 'valid': in-bounds, same-type (C03).  mode 'edge': boundaries, out-of-bounds, cross-type, unknown (C05).
+    mode 'mixed': mostly valid requests with one in eight drawn as 'edge' (C03: refused requests must change nothing either)."""
+    if mode == 'mixed':
+        mode = 'edge' if draw(st.integers(0, 7)) == 0 else 'valid'
     if mode == 'edge' and draw(st.integers(0, 11)) == 0:
         # unknown tag / unknown object
         kind = draw(st.sampled_from(['tag', 'object', 'attribute', 'attribute']))
@@ -143,6 +146,12 @@ def op_strategy(draw, specs, mode):
             if mode == 'edge' and draw(st.integers(0, 3)) == 0:
                 n = draw(st.sampled_from([max(0, L - 1), L + 1]))
             op['values'] = draw(st.lists(value_of(t), min_size=n, max_size=n))
+            if mode == 'edge' and t in M.FIXED_TYPES and rc.tsize(t) > 1 and draw(st.integers(0, 3)) == 0:
+                # a payload that is not a whole number of elements: the exact data plus / minus 1..size-1 stray bytes
+                k = draw(st.integers(1, rc.tsize(t) - 1))
+                raw = rc.enc_values(t, draw(st.lists(value_of(t), min_size=L, max_size=L)))
+                op['raw'] = (raw + bytes(draw(st.lists(st.integers(0, 255), min_size=k, max_size=k))) if draw(st.booleans())
+                             else raw[:-k]).hex()
         return op
     if mode == 'valid':
         e = draw(st.integers(0, L - 1))
